@@ -111,6 +111,8 @@ type FileField struct {
 // Case is one request description.
 type Case struct {
 	Method    string      `json:"method"`
+	PresetCT  string      `json:"preset_ct,omitempty"` // form payloads: Content-Type header parameter set by the parameter writer itself
+	Overlap   bool        `json:"overlap,omitempty"` // uploads: a second multipart request is built and sent while this one is half read
 	Kind      string      `json:"kind"`       // nil | value | reader | readcloser | buffer (*bytes.Buffer payload) | bytesreader (*bytes.Reader payload) | form
 	MediaType string      `json:"media_type"` // the media type the operation chooses
 	Route     string      `json:"route"`      // consumes | empty-then | default: how the choice reaches the runtime
@@ -233,6 +235,13 @@ func Check(c Case) *kit.Violation {
 	}
 
 	op.Params = runtime.ClientRequestWriterFunc(func(req runtime.ClientRequest, _ strfmt.Registry) error {
+		if c.PresetCT != "" && c.Kind == "form" {
+			// a parameter writer may set a Content-Type header parameter of its own: the header that goes out still has to
+			// describe the body that goes out
+			if err := req.SetHeaderParam("Content-Type", c.PresetCT); err != nil {
+				return err
+			}
+		}
 		for _, f := range c.Fields {
 			vals := make([]string, len(f.Values))
 			for i, v := range f.Values {
@@ -306,7 +315,26 @@ func Check(c Case) *kit.Violation {
 	if req.Body != nil {
 		var rerr error
 		if v := kit.Guard("reading the request body", func() {
-			sent, rerr = io.ReadAll(req.Body)
+			if c.Overlap && c.hasFiles() {
+				// another upload is built and sent while this one is under way (its first byte is out, the rest not yet
+				// read): requests in flight at the same time must not see each other's file contents
+				first := make([]byte, 1)
+				n, _ := io.ReadFull(req.Body, first)
+				sent = append(sent, first[:n]...)
+				twin := &runtime.ClientOperation{ID: "c11-twin", Method: "POST", PathPattern: "/twin", ConsumesMediaTypes: []string{runtime.MultipartFormMime},
+					Params: runtime.ClientRequestWriterFunc(func(req runtime.ClientRequest, _ strfmt.Registry) error {
+						return req.SetFileParam("twin", namedFile{s: &stream{data: bytes.Repeat([]byte{0xEE}, 700)}, name: "twin.bin"},
+							namedFile{s: &stream{data: bytes.Repeat([]byte("TWIN"), 100)}, name: "twin.txt"})
+					})}
+				// through a transport of its own: the one under test may carry an auth writer that records what it sees
+				if treq, terr := client.New("example.test", "/base", []string{"http"}).CreateHttpRequest(twin); terr == nil && treq.Body != nil {
+					_, _ = io.Copy(io.Discard, treq.Body)
+					_ = treq.Body.Close()
+				}
+			}
+			var rest []byte
+			rest, rerr = io.ReadAll(req.Body)
+			sent = append(sent, rest...)
 			_ = req.Body.Close()
 		}); v != nil {
 			return v
